@@ -6,8 +6,8 @@ From Coq Require Import String List.
 From TS Require Import Model.Str Model.Outcome Model.Unicode Model.Types Model.Parse Model.Lang.Common Model.Lang.Decl
                        Model.Lang.Swift Model.Lang.Scala Model.Lang.Go Model.Lang.Kotlin Model.Lang.Python Spec.C12Spec Proofs.C12Obs.
 From TS Require Proofs.C12 Proofs.C12_Swift Proofs.C12_Go Proofs.C12_Kotlin Proofs.C12_Python.
-From TS Require Import Model.MultiFile.
-From TS Require Model.Writer Spec.C17Spec Proofs.C02_Witness Proofs.C12Multi Proofs.C12MultiGo Proofs.C12MultiSwift Proofs.C12MultiStateless Proofs.C12MultiWitness.
+From TS Require Import Model.MultiFile Model.Lang.TypeScript Spec.C12TSSpec.
+From TS Require Model.Writer Spec.C17Spec Proofs.C02_Witness Proofs.C12Multi Proofs.C12MultiGo Proofs.C12MultiSwift Proofs.C12MultiStateless Proofs.C12MultiTS Proofs.C12MultiWitness.
 Import ListNotations.
 
 (* Swift, single file: for every program and configuration (any prefix, mappings, decorators), ()
@@ -670,3 +670,75 @@ Theorem C12_multi_scala_nonvacuous :
       [Ok ([], []); Ok ([lit "UInt"], [lit "UByte"; lit "UShort"; lit "UInt"; lit "ULong"])].
 Proof. exact Proofs.C12MultiWitness.c12_multi_scala_nonvacuous. Qed.
 Print Assumptions C12_multi_scala_nonvacuous.
+
+(* ---- TypeScript, multi-file.  The trailer (typescript.rs:43 end_file: ReviverFunc / ReplacerFunc) IS written in
+   multi-file mode, from types_for_custom_json_translation, a map in the language value that is never cleared between
+   files.  Generated declarations never NAME the two helpers (single-file: nothing to check); what a threaded state can
+   break is their CONTENT.  Spec/C12TSSpec.v: c12_ts_translated ds = the printed types of the members (interface
+   properties, properties of struct variants) of ds that have a reviver / replacer (Date, Uint8Array);
+   c12_ts_handled st = the types whose blocks the trailer written from st contains; c12_ts_defs st = the helper names
+   that trailer defines; c12_ts_good ds st = every translated member type is handled, and when there is one both
+   helpers are defined. *)
+Theorem C12_multi_typescript_good_meaning :
+  forall (ds : list ts_decl) (st : ts_state),
+    c12_ts_good ds st = true <->
+    (forall t, In t (c12_ts_translated ds) -> In t (c12_ts_handled st)) /\
+    (c12_ts_translated ds <> [] -> forall h, In h c12_ts_helpers -> In h (c12_ts_defs st)).
+Proof. exact Proofs.C12MultiTS.c12_ts_good_spec. Qed.
+Print Assumptions C12_multi_typescript_good_meaning.
+
+(* what ts_multi_decls is: header, cross-crate import lines, the rendering of exactly ds, the trailer of the map REACHED *)
+Theorem C12_multi_typescript_layout :
+  forall (uc : unicode) (cfg : ts_config) (st : ts_state) (im : scoped) (pd : parsed) (text : str) (st' : ts_state),
+    ts_generate_multi uc cfg st im pd = Ok (text, st') <->
+    exists ds, Proofs.C12MultiTS.ts_multi_decls uc cfg st pd = Ok (ds, st') /\
+               text = ts_begin_file cfg ++ ts_write_imports im ++ List.concat (map ts_render_decl ds) ++ ts_end_file st'.
+Proof. exact Proofs.C12MultiTS.ts_multi_layout. Qed.
+Print Assumptions C12_multi_typescript_layout.
+
+(* ONE FILE from ANY map, every program and configuration (no hypothesis): nothing registered before is forgotten, and
+   the file is good with respect to the map its own trailer is written from *)
+Theorem C12_multi_typescript_file :
+  forall (uc : unicode) (cfg : ts_config) (st0 : ts_state) (pd : parsed) (ds : list ts_decl) (st : ts_state),
+    Proofs.C12MultiTS.ts_multi_decls uc cfg st0 pd = Ok (ds, st) ->
+    incl (c12_ts_handled st0) (c12_ts_handled st) /\ c12_ts_good ds st = true.
+Proof. exact Proofs.C12MultiTS.c12_ts_file_from. Qed.
+Print Assumptions C12_multi_typescript_file.
+
+(* THE RUN, any initial map (the CLI model starts with the empty one), any plan: every file is what ts_generate_multi
+   returns on that crate's import list and data from the map st_i the earlier crates left; its text is the layout above
+   with the trailer of st_i'; the handled types only grow along the run; the file is good *)
+Theorem C12_multi_typescript :
+  forall (uc : unicode) (cfg : ts_config) (st0 : ts_state) (plan : list out_plan)
+         (files : list (str * Writer.gen_result)) (fin : outcome ts_state),
+    generate_crates (Proofs.C12MultiTS.ts_multi_gen uc cfg) st0 plan = (files, fin) ->
+    forall i fname text,
+      nth_error files i = Some (fname, Writer.Generated text) ->
+      exists p st_i st_i' ds,
+        nth_error plan i = Some p /\ fname = op_file p /\
+        ts_generate_multi uc cfg st_i (op_imports p) (op_data p) = Ok (text, st_i') /\
+        Proofs.C12MultiTS.ts_multi_decls uc cfg st_i (op_data p) = Ok (ds, st_i') /\
+        text = ts_begin_file cfg ++ ts_write_imports (op_imports p) ++ List.concat (map ts_render_decl ds) ++ ts_end_file st_i' /\
+        incl (c12_ts_handled st0) (c12_ts_handled st_i) /\
+        incl (c12_ts_handled st_i) (c12_ts_handled st_i') /\
+        c12_ts_good ds st_i' = true.
+Proof. exact Proofs.C12MultiTS.c12_multi_typescript. Qed.
+Print Assumptions C12_multi_typescript.
+
+(* non-vacuity (vm_compute, workspace ws_py_plain): alpha's member `at: Date` is registered and handled (and would not be
+   good against the empty map); beta has no translated member; beta.ts is y_beta_ts byte for byte: its declarations
+   followed by the trailer of the map alpha left *)
+Theorem C12_multi_typescript_nonvacuous :
+  exists plan p_alpha p_beta t_alpha ds_alpha ds_beta,
+    Proofs.C12MultiWitness.y_plan TypeScript Proofs.C12MultiWitness.ws_py_plain = Some plan /\ plan = [p_alpha; p_beta] /\
+    generate_crates (Proofs.C12MultiTS.ts_multi_gen uc_exec Proofs.C12MultiWitness.y_ts_cfg) [] plan =
+      ([(lit "alpha.ts", Writer.Generated t_alpha); (lit "beta.ts", Writer.Generated Proofs.C12MultiWitness.y_beta_ts)],
+       Ok [(lit "Date", [lit "at"])]) /\
+    Proofs.C12MultiTS.ts_multi_decls uc_exec Proofs.C12MultiWitness.y_ts_cfg [] (op_data p_alpha) = Ok (ds_alpha, [(lit "Date", [lit "at"])]) /\
+    c12_ts_translated ds_alpha = [lit "Date"] /\ c12_ts_good ds_alpha [(lit "Date", [lit "at"])] = true /\
+    c12_ts_good ds_alpha [] = false /\
+    Proofs.C12MultiTS.ts_multi_decls uc_exec Proofs.C12MultiWitness.y_ts_cfg [(lit "Date", [lit "at"])] (op_data p_beta) =
+      Ok (ds_beta, [(lit "Date", [lit "at"])]) /\
+    c12_ts_translated ds_beta = [] /\ c12_ts_defs [(lit "Date", [lit "at"])] = c12_ts_helpers.
+Proof. exact Proofs.C12MultiWitness.c12_multi_typescript_nonvacuous. Qed.
+Print Assumptions C12_multi_typescript_nonvacuous.
